@@ -244,9 +244,8 @@ impl AuthRxBuilder {
             && self.reason_string.is_none()
             && self.user_property.is_none();
 
-        if !shortened
-            && (self.authentication_method.is_none() || self.authentication_data.is_none())
-        {
+        // Authentication Data is optional in an AUTH packet (MQTT 5.0, 3.15.2.2.3).
+        if !shortened && self.authentication_method.is_none() {
             Err(MandatoryPropertyMissing.into())
         } else {
             Ok(())
